@@ -7,10 +7,10 @@ from . import common
 
 COVERS = ['*']
 DOMAIN = {'quick': 'Kronecker products of 1-4 factors with independent shapes (square and rectangular, sizes 1-4), each factor dense / sparse / LinearOperator, '
-                   'applied to vectors, (n,1) and (n,k) arrays, plain / transposed / adjoint; block, block-diagonal (with None and NullOperator '
+                   'applied to vectors, (n,1) and (n,k) arrays of dtype float64, integer and float32, plain / transposed / adjoint; block, block-diagonal (with None and NullOperator '
                    'blocks), diagonal, identity, null, subspace-correction operators and their transposes; apply_tprod with None placeholders and '
                    'trailing axes, apply_kronecker; make_solver (dense/sparse, general/symmetric/SPD), make_kronecker_solver, fastdiag_solver for '
-                   'Kronecker-sum Laplacians in 1D-3D; CSRRowSlice / CSRRowSubset; seeded random integer-valued matrices',
+                   'Kronecker-sum Laplacians in 1D-3D; CSRRowSlice / CSRRowSubset; seeded random matrices with entries in Z/2 (exact products, non-integer results)',
           'thorough': 'more seeds and shapes'}
 RULE = 'case = (operator kind, shapes, storage kinds, argument kind, seed); distinct by input'
 TOL = 1e-11
@@ -26,7 +26,8 @@ def _close(A, B, what, tol=TOL):
 
 
 def _mat(rng, m, n):
-    return rng.randint(-3, 4, size=(m, n)).astype(float)
+    # multiples of 1/2: all products stay exact in double precision, but are not integers (a result cast to an integer dtype shows)
+    return rng.randint(-6, 7, size=(m, n)) / 2.0
 
 
 def _as_kind(A, kind):
@@ -41,7 +42,9 @@ def _as_kind(A, kind):
 
 def _args(rng, n):
     return [('vector', rng.randint(-3, 4, size=n).astype(float)), ('column', rng.randint(-3, 4, size=(n, 1)).astype(float)),
-            ('matrix', rng.randint(-3, 4, size=(n, 3)).astype(float))]
+            ('matrix', rng.randint(-3, 4, size=(n, 3)).astype(float)),
+            # other real dtypes: the result is the exact product with the dense matrix, not a value cast back to the argument's dtype
+            ('integer vector', rng.randint(-3, 4, size=n)), ('float32 matrix', rng.randint(-3, 4, size=(n, 2)).astype(np.float32))]
 
 
 def _apply_all(op, D, rng, what, transposes=True):
